@@ -49,11 +49,13 @@ def items_of(v):
     raise Unsupported('items_of %r' % (v,))
 
 
-def cint(it, v, what='value'):
+def cint(it, v, what='value', fork=False):
     if isinstance(v, LazyV):
         v = v.as_int(64)
     if v.sym():
-        raise Unsupported('symbolic %s' % what)
+        if fork:
+            return it.concretize(v)
+        raise Unsupported('symbolic %s in %s' % (what, it.stack[-1] if it.stack else '?'))
     return v.v
 
 
@@ -243,16 +245,17 @@ def _index(it, xs, i):
 
 
 def _range_bounds(it, r, n):
+    # symbolic slice bounds are forked into their (few) feasible concrete values
     if r.name == 'Range':
-        return cint(it, r.fields[0]), cint(it, r.fields[1])
+        return cint(it, r.fields[0], fork=True), cint(it, r.fields[1], fork=True)
     if r.name == 'RangeFrom':
-        return cint(it, r.fields[0]), n
+        return cint(it, r.fields[0], fork=True), n
     if r.name == 'RangeTo':
-        return 0, cint(it, r.fields[0])
+        return 0, cint(it, r.fields[0], fork=True)
     if r.name == 'RangeFull':
         return 0, n
     if r.name == 'RangeInclusive':
-        return cint(it, r.fields[0]), cint(it, r.fields[1]) + 1
+        return cint(it, r.fields[0], fork=True), cint(it, r.fields[1], fork=True) + 1
     raise Unsupported('range ' + r.name)
 
 
@@ -553,6 +556,17 @@ def _u32_from(it, c, a):
     return it.int_cast(x, ty)
 
 
+@tmodel('Default', 'default')
+def _default(it, c, a):
+    m = re.match(r'^<(\w+) as ', c)
+    if m and m.group(1) in INTW:
+        bits, sg = INTW[m.group(1)]
+        return IntV(0, bits, sg)
+    if m and m.group(1) == 'bool':
+        return BoolV(False)
+    return NotImplemented
+
+
 @tmodel('PartialEq', 'eq', 'ne')
 def _peq(it, c, a):
     x, y = deref(a[0]), deref(a[1])
@@ -594,6 +608,8 @@ def _clone(it, c, a):
 @tmodel('From', 'from')
 def _into(it, c, a):
     k = _ck(c)
+    if k == '<TextSize as Into>::into':
+        return it.int_cast(tsz(a[0]), 'usize' if 'Into<usize>' in c else 'u32')
     if k in ('<SyntaxKind as Into>::into', '<SyntaxKind as From>::from'):
         x = a[0]
         if isinstance(x, Agg) and x.name == 'SyntaxKind' and x.kind == 'struct':   # rowan::SyntaxKind(u16)
@@ -730,9 +746,27 @@ def _into_iter(it, c, a):
             return PyIter((RefV(xs, i) for i in range(len(xs))))
         if isinstance(t, MapV):
             return as_iter(it, t)
-    if isinstance(v, Agg) and v.name in ('Range', 'RangeInclusive') and all(isinstance(f, IntV) for f in v.fields):
-        return v     # Range is its own iterator (fields are mutated by next)
-    return as_iter(it, v)
+    return persist(it, v)
+
+
+_STATEFUL_RANGES = ('Range', 'RangeInclusive', 'RangeFrom')
+
+
+def persist(it, v):
+    """turn an iterator *value* into something with identity, so repeated next() calls advance it"""
+    t = v.get() if isinstance(v, RefV) else v
+    if isinstance(t, PyIter):
+        return t
+    if isinstance(t, Agg) and t.name in _STATEFUL_RANGES and all(isinstance(f, IntV) for f in t.fields):
+        return t
+    if isinstance(t, Agg) and t.kind == 'struct' and it.resolve('<%s as std::iter::Iterator>::next' % t.name, 1) is not None:
+        return t
+    if isinstance(v, RefV) and (isinstance(t, (VecV, SliceV, MapV)) or (isinstance(t, Agg) and t.kind == 'array')):
+        if isinstance(t, MapV):
+            return as_iter(it, t)
+        xs = items_of(t)
+        return PyIter((RefV(xs, i) for i in range(len(xs))))
+    return as_iter(it, t)
 
 
 def _it_next(it, src):
@@ -745,13 +779,19 @@ def _it_next(it, src):
             return None
         src.fields[0] = it.binop('Add', cur, IntV(1, cur.bits, cur.signed))
         return cur
-    if isinstance(src, Agg) and src.kind == 'struct' and src.name not in ('RangeFrom',):
+    if isinstance(src, Agg) and src.name == 'RangeFrom':
+        cur = src.fields[0]
+        src.fields[0] = it.binop('Add', cur, IntV(1, cur.bits, cur.signed))
+        return cur
+    if isinstance(src, Agg) and src.kind == 'struct':
         fb = it.resolve('<%s as std::iter::Iterator>::next' % src.name, 1)
         if fb is not None:
             r = it.run_body(fb, [RefV([src], 0)])
             var, pay = shape(it, r, ['None', 'Some'])
             return None if var == 'None' else pay
-    return as_iter(it, src).nxt()
+    if isinstance(src, PyIter):
+        return src.nxt()
+    raise Unsupported('next() on a non-iterator value %r (missing into_iter?)' % (src,))
 
 
 @tmodel('Iterator', 'next')
@@ -761,7 +801,7 @@ def _next(it, c, a):
 
 
 def _drain_all(it, src):
-    src = src if not isinstance(src, RefV) else src.get()
+    src = persist(it, src)
     while True:
         x = _it_next(it, src)
         if x is None:
@@ -771,7 +811,7 @@ def _drain_all(it, src):
 
 @tmodel('Iterator', 'copied', 'cloned')
 def _it_copied(it, c, a):
-    src = a[0]
+    src = persist(it, a[0])
     return PyIter((dcopy(deref(x)) for x in _drain_all(it, src)))
 
 
@@ -782,15 +822,13 @@ def _by_ref(it, c, a):
 
 @tmodel('Iterator', 'enumerate')
 def _enumerate(it, c, a):
-    src = a[0]
+    src = persist(it, a[0])
     return PyIter((tup(IntV(i, 64, 0), x) for i, x in enumerate(_drain_all(it, src))))
 
 
 @tmodel('Iterator', 'zip')
 def _zip(it, c, a):
-    s1, s2 = a[0], a[1]
-    if isinstance(s2, (VecV, SliceV)) or (isinstance(s2, RefV) and isinstance(s2.get(), (VecV, SliceV))):
-        s2 = _into_iter(it, c, [s2])
+    s1, s2 = persist(it, a[0]), persist(it, a[1])
 
     def g():
         while True:
@@ -806,7 +844,7 @@ def _zip(it, c, a):
 
 @tmodel('Iterator', 'chain')
 def _chain(it, c, a):
-    s1, s2 = a[0], a[1]
+    s1, s2 = persist(it, a[0]), persist(it, a[1])
 
     def g():
         for x in _drain_all(it, s1):
@@ -824,7 +862,7 @@ def _rev(it, c, a):
 
 @tmodel('Iterator', 'filter', 'take_while', 'skip_while', 'map', 'filter_map', 'flat_map', 'inspect', 'map_while')
 def _adapt(it, c, a):
-    src, clo = a[0], a[1]
+    src, clo = persist(it, a[0]), a[1]
     meth = re.sub(r'::<.*', '', c[c.rindex('>::') + 3:]) if '>::' in c else c.split('::')[-1]
 
     def g():
@@ -864,7 +902,7 @@ def _adapt(it, c, a):
 
 @tmodel('Iterator', 'take')
 def _take_n(it, c, a):
-    src = a[0]; n = cint(it, a[1])
+    src = persist(it, a[0]); n = cint(it, a[1])
 
     def g():
         for i in range(n):
@@ -877,7 +915,7 @@ def _take_n(it, c, a):
 
 @tmodel('Iterator', 'skip')
 def _skip_n(it, c, a):
-    src = a[0]; n = cint(it, a[1])
+    src = persist(it, a[0]); n = cint(it, a[1])
 
     def g():
         for i in range(n):
@@ -890,7 +928,8 @@ def _skip_n(it, c, a):
 
 @tmodel('Iterator', 'peekable')
 def _peekable(it, c, a):
-    return as_iter(it, a[0]) if not isinstance(a[0], Agg) else PyIter(_drain_all(it, a[0]))
+    p = persist(it, a[0])
+    return p if isinstance(p, PyIter) else PyIter(_drain_all(it, p))
 
 
 @model('Peekable::peek')
@@ -1265,7 +1304,7 @@ def _is_char_boundary(it, c, a):
     if isinstance(i, Agg):
         i = i.fields[0]
     if i.sym():
-        raise Unsupported('symbolic is_char_boundary index')
+        i = IntV(it.concretize(i), 64, 0)
     if i.v == 0 or i.v == len(b):
         return BoolV(True)
     if i.v > len(b):
